@@ -165,9 +165,18 @@ def reshardIndexGroup (d : Data) (r : RP) (start lastEnd : Int) : Data × RP :=
   ({ d with maxIndexGroupID := d.maxIndexGroupID + 1, maxIndexID := d.maxIndexID + d.clusterPtNum },
    { r with indexGroups := insertIG ig r.indexGroups })
 
+/-- the index group `reshardIndexGroup` creates (the same expression) -/
+def reshardIG (d : Data) (r : RP) (start lastEnd : Int) : IG :=
+  let stop := match r.indexGroups.reverse.find? (fun g => g.start ≤ lastEnd ∧ start < g.stop) with
+    | some g => g.stop
+    | none => lastEnd
+  { id := d.maxIndexGroupID + 1, start := start, stop := stop, deleted := false, engine := 0,
+    indexes := mkIndexes (d.maxIndexID + 1) d.clusterPtNum }
+
 /-- shards of `CreateShardGroupWithBounds` (with `shardN ≤ ptNum`, guaranteed by the guard): shard
-`i` is owned by partition `i` and uses index `i` of the *last* index group in sort order;
-`none` = the index group has no such index (the code panics). -/
+`i` is owned by partition `i` and uses index `i` of the index group made for the new shard group
+(`fix:` it used to be the last index group in sort order, which may be an older one with fewer
+indexes); `none` = the index group has no such index (the code panics). -/
 def boundShards (firstID tier : Nat) (ig : IG) : Nat → Nat → Option (List Shard)
   | 0, _ => some []
   | n + 1, i =>
@@ -180,7 +189,7 @@ def boundShards (firstID tier : Nat) (ig : IG) : Nat → Nat → Option (List Sh
 
 def firstMissingIndex (ig : IG) (n : Nat) : Nat := if ig.indexes.length < n then ig.indexes.length else n
 
-/-- `Data.ReSharding` (after the guard `fix:`). -/
+/-- `Data.ReSharding` (after the guard `fix:` and the index-group `fix:`). -/
 def reSharding (d : Data) (db rp : String) (sgid : Nat) (splitTime : Int) (nBounds : Nat) : Step :=
   match getRP d db rp with
   | .error e => fail d e
@@ -194,7 +203,7 @@ def reSharding (d : Data) (db rp : String) (sgid : Nat) (splitTime : Int) (nBoun
       else
         let start := Wire.wrap64 (splitTime + 1)      -- `time.Unix(0, SplitTime+1)`: int64 arithmetic
         let (d1, r1) := reshardIndexGroup d r start last.stop
-        match r1.indexGroups.getLast?, last.shards.head? with
+        match (some (reshardIG d r start last.stop) : Option IG), last.shards.head? with
         | _, none => (d, .panic pIndexRange)
         | none, _ => (d, .panic pIndexRange)
         | some ig, some s0 =>
